@@ -201,14 +201,32 @@ class CFGBuilder(AstVisitor[BB | None]):
         """
         match target:
             case ast.Subscript():
-                return [(target, "value"), (target, "slice")]
+                return [*self._place_operands(target, "value"), (target, "slice")]
             case ast.Attribute():
-                return [(target, "value")]
+                return self._place_operands(target, "value")
             case ast.Tuple(elts=elts) | ast.List(elts=elts):
                 return [op for elt in elts for op in self._assign_target_operands(elt)]
             case ast.Starred(value=value):
                 return self._assign_target_operands(value)
         return []
+
+    def _place_operands(self, container: Any, key: Any) -> list["Operand"]:
+        """Returns the expressions nested inside the object of a subscript or attribute
+        target, e.g. `r` in `xss[r][i] = x`.
+
+        The object itself denotes the place that is assigned to, so it must stay where
+        it is: storing `xss[r]` in a temporary would move it out of `xss`. Only its
+        indices are evaluated as values.
+        """
+        obj = _get_operand(container, key)
+        match obj:
+            case ast.Name():
+                return []
+            case ast.Subscript():
+                return [*self._place_operands(obj, "value"), (obj, "slice")]
+            case ast.Attribute():
+                return self._place_operands(obj, "value")
+        return [(container, key)]
 
     def visit_Assign(self, node: ast.Assign, bb: BB, jumps: Jumps) -> BB | None:
         # Python evaluates the right-hand side first, then the targets left to right
@@ -232,6 +250,25 @@ class CFGBuilder(AstVisitor[BB | None]):
             # right-hand side. Save it and turn the statement into `x = old + rhs`
             old = builder.bind(with_loc(node.target, ast.Name(node.target.id, ast.Load())))
             builder.build_operands([(node, "value")])
+            value = with_loc(node, ast.BinOp(left=old, op=node.op, right=node.value))
+            stmt = with_loc(node, ast.Assign(targets=[node.target], value=value))
+        elif isinstance(
+            node.target, ast.Subscript | ast.Attribute
+        ) and lifts_control_flow(node.value):
+            # `xs[i] += f(xs) if c else 0`: Python loads the old value of `xs[i]` before
+            # it evaluates the right-hand side, but the branches of the right-hand side
+            # are built in front of this statement. Load the old value first and turn
+            # the statement into `xs[i] = old + rhs`
+            targets = self._assign_target_operands(node.target)
+            builder.build_operands(targets)
+            if isinstance(node.target, ast.Subscript) and not isinstance(
+                node.target.slice, ast.Name | ast.Constant
+            ):
+                node.target.slice = builder.bind(node.target.slice)
+            load = copy.deepcopy(node.target)
+            load.ctx = ast.Load()
+            old = builder.bind(load)
+            builder.build_operands([(node, "value")], earlier=targets)
             value = with_loc(node, ast.BinOp(left=old, op=node.op, right=node.value))
             stmt = with_loc(node, ast.Assign(targets=[node.target], value=value))
         else:
